@@ -1,5 +1,6 @@
 """C14 Safety interlocks refuse destructive syncs and change nothing."""
 import os
+import shutil
 import random
 import subprocess
 import threading
@@ -36,6 +37,30 @@ def cp_snapshot(a):
             s[p] = None
     s["__dirs__"] = (sorted(os.listdir(os.path.join(a.root, "par"))), sorted(n for n in os.listdir(os.path.join(a.root, "cnt")) if not n.endswith(".lock")))
     return s
+
+
+def add_new_files(a, fs, rng, d, res):
+    """New files appear on the disk that lost / rewrote everything it had: fresh data, and time-stamp preserving copies
+    (cp -p) of files synced on OTHER disks, under the same or another directory - none of them is one of the disk's own
+    previously known files, so the interlock must still fire."""
+    base = os.fsencode(a.ddir(d))
+    n = 0
+    others = [(d2, s) for (d2, s) in fs.files() if d2 != d and d2 in a.disks and os.path.isfile(fs.path(d2, s))]
+    for (d2, s) in rng.sample(others, min(len(others), rng.randint(1, 3))):
+        rel = s if rng.random() < 0.6 else b"copied/" + s.split(b"/")[-1]
+        dst = os.path.join(base, rel)
+        # not a name the disk itself had recorded: a same-name, same-stamp twin would be a legitimately "restored" file
+        if os.path.lexists(dst) or rel in fs.entries[d]:
+            continue
+        try:
+            os.makedirs(os.path.dirname(dst), exist_ok=True)
+            shutil.copy2(fs.path(d2, s), dst)
+            n += 1
+        except OSError:
+            pass
+    with open(os.path.join(base, b"brand-new-%d" % rng.randint(0, 99)), "wb") as f:
+        f.write(A.gen_bytes(rng, rng.randint(1, 3000)))
+    res["counters"]["copies_onto_trigger_disk"] = res["counters"].get("copies_onto_trigger_disk", 0) + n
 
 
 def run_case(case):
@@ -89,6 +114,8 @@ def run_case(case):
                         with open(c, "wb") as f:
                             f.write(data)
                     override = ["-E"]
+                    if mixed:
+                        add_new_files(a, fs, rng, d, res)
                 elif trig == "disk-rewritten":
                     d = rng.choice(a.disks)
                     target = a.disk_names[d]
@@ -117,6 +144,8 @@ def run_case(case):
                     if not seen_ino:
                         continue
                     override = ["-E"]
+                    if mixed:
+                        add_new_files(a, fs, rng, d, res)
                 elif trig == "file-emptied":
                     cands = [(d, s) for (d, s) in fs.files() if len(fs.entries[d][s][1]) > 0 and not fs.links_of(d, s) and os.path.exists(fs.path(d, s))]
                     cands = [(d, s) for (d, s) in cands if d in a.disks]
